@@ -24,12 +24,16 @@ import (
 	"encoding/json"
 	"errors"
 	"fmt"
+	"io"
 	"os"
 	"path/filepath"
 	"sync"
 	"time"
 
 	"github.com/containerd/nri/pkg/adaptation"
+	"github.com/containerd/ttrpc"
+	"google.golang.org/grpc/codes"
+	"google.golang.org/grpc/status"
 
 	"verifh/c06/rt"
 	"verifh/internal/hx"
@@ -40,6 +44,44 @@ type Fault struct {
 	Kind string `json:"kind"` // none|cut|corrupt|stall|stop-before|kill-before|kill-during|kill-after|hang|slow|herr
 	Dir  string `json:"dir"`  // r2p | p2r | ""
 	Off  int64  `json:"off"`
+	// As (kind herr): which error value the handler returns over its healthy connection
+	// ("" = a plain errors.New). Several LOOK like transport or timeout failures.
+	As string `json:"as"`
+}
+
+// HandlerErrs are the error values a handler may return; the text each must leave in the error
+// the request fails with is handlerErrText.
+var HandlerErrs = []string{"ctx-deadline", "ctx-canceled", "st-deadline", "st-unavailable", "st-exhausted",
+	"st-canceled", "ttrpc-closed", "ttrpc-server-closed", "ttrpc-protocol", "unexpected-eof", "eof", "proto-text"}
+
+func handlerErr(as, veto string) error {
+	switch as {
+	case "ctx-deadline":
+		return context.DeadlineExceeded
+	case "ctx-canceled":
+		return context.Canceled
+	case "st-deadline":
+		return status.Error(codes.DeadlineExceeded, veto)
+	case "st-unavailable":
+		return status.Error(codes.Unavailable, veto)
+	case "st-exhausted":
+		return status.Error(codes.ResourceExhausted, veto)
+	case "st-canceled":
+		return status.Error(codes.Canceled, veto)
+	case "ttrpc-closed":
+		return ttrpc.ErrClosed
+	case "ttrpc-server-closed":
+		return ttrpc.ErrServerClosed
+	case "ttrpc-protocol":
+		return ttrpc.ErrProtocol
+	case "unexpected-eof":
+		return io.ErrUnexpectedEOF
+	case "eof":
+		return io.EOF
+	case "proto-text":
+		return errors.New("proto: cannot parse invalid wire-format data (" + veto + ")")
+	}
+	return errors.New(veto)
 }
 
 type In struct {
@@ -110,7 +152,7 @@ func runOnce(dir string, in *In) (obs Obs) {
 		}
 		switch in.Fault.Kind {
 		case "herr":
-			return errors.New("veto:" + p.Name + ":" + req + ":" + fmt.Sprint(ev))
+			return handlerErr(in.Fault.As, "veto:"+p.Name+":"+req+":"+fmt.Sprint(ev))
 		case "hang":
 			select {
 			case <-release:
@@ -225,7 +267,7 @@ func runMulti(dir string, in *In) (obs Obs) {
 			}
 			switch f.Kind {
 			case "herr":
-				return errors.New("veto:" + p.Name + ":" + req + ":" + fmt.Sprint(ev))
+				return handlerErr(f.As, "veto:"+p.Name+":"+req+":"+fmt.Sprint(ev))
 			case "hang":
 				select {
 				case <-release:
@@ -305,8 +347,23 @@ func healthyMissing(in *In, o *Obs) bool {
 		return false
 	}
 	failed := o.Fault.Res.Err != ""
+	// faults that involve no waiting: a request that nevertheless took a whole timeout was held
+	// up by the machine, not by the code (a defect that makes it wait repeats and is reported)
+	switch in.Fault.Kind {
+	case "none", "herr", "cut", "kill-before", "kill-during", "kill-after", "stop-before":
+		if o.Fault.WallMs >= int64(in.TimeoutMs) || o.Next.WallMs >= int64(in.TimeoutMs) {
+			return true
+		}
+	}
 	for i := 0; i < n; i++ {
 		if i == in.Pos {
+			// a plugin that answered (normally, slowly but in time, or with its own error) stays
+			switch in.Fault.Kind {
+			case "none", "slow", "herr":
+				if !seen(o.Next.Log, names[i], "next.") {
+					return true
+				}
+			}
 			continue
 		}
 		if !seen(o.Next.Log, names[i], "next.") {
@@ -492,7 +549,7 @@ func Run(o *hx.Opts, w *lineio.Writer) error {
 	rnd := o.Rand(701)
 	var jobs []*rt.Job
 	add := func(in *In) {
-		jobs = append(jobs, &rt.Job{ID: fmt.Sprintf("%s-%s%d-e%d-p%d-%v-%d", in.Fault.Kind, in.Fault.Dir, in.Fault.Off, in.Ev, in.Pos, in.Raw, len(jobs)), In: in})
+		jobs = append(jobs, &rt.Job{ID: fmt.Sprintf("%s%s-%s%d-e%d-p%d-%v-%d", in.Fault.Kind, in.Fault.As, in.Fault.Dir, in.Fault.Off, in.Ev, in.Pos, in.Raw, len(jobs)), In: in})
 	}
 	thorough := o.Thorough()
 	for _, ev := range reqTypes {
@@ -502,6 +559,10 @@ func Run(o *hx.Opts, w *lineio.Writer) error {
 			// events
 			for _, k := range []string{"none", "stop-before", "kill-before", "kill-during", "kill-after", "hang", "slow", "herr"} {
 				add(mk(ev, pos, Fault{Kind: k}, raw))
+			}
+			// handler errors that LOOK like transport / timeout failures, over a healthy connection
+			for _, as := range HandlerErrs {
+				add(mk(ev, pos, Fault{Kind: "herr", As: as}, raw))
 			}
 			// byte-exact faults: every offset of the exchange for the middle plugin at quick tier
 			// (other positions: a seeded stride), every offset everywhere at thorough tier
@@ -547,6 +608,9 @@ func Run(o *hx.Opts, w *lineio.Writer) error {
 		for _, k := range []string{"kill-before", "kill-during", "hang", "herr"} {
 			add(mk(ev, 1, Fault{Kind: k}, true))
 		}
+		for _, as := range HandlerErrs {
+			add(mk(ev, 1, Fault{Kind: "herr", As: as}, true))
+		}
 		for _, dir := range []string{"r2p", "p2r"} {
 			total := lr.r2p
 			if dir == "p2r" {
@@ -573,6 +637,8 @@ func Run(o *hx.Opts, w *lineio.Writer) error {
 				herrs++
 				if herrs > 1 || rnd.Intn(2) == 0 {
 					f.Kind = "hang"
+				} else if rnd.Intn(3) != 0 {
+					f.As = HandlerErrs[rnd.Intn(len(HandlerErrs))]
 				}
 			}
 			if f.Kind == "cut" || f.Kind == "stall" {
